@@ -13,7 +13,7 @@ C12  Predicted progeny variances equal the exact variance of the cross's gametes
 """
 import ast
 
-from sa.astutil import dump, where, kwargs_of, walk_no_nested
+from sa.astutil import is_guard, dump, where, kwargs_of, walk_no_nested
 from sa.model import body_nodoc
 from sa.vn import path_values, RAISES, VN, Poly, VNUnknown, comparable
 from rules import c05
@@ -392,8 +392,11 @@ def check_from_algmod(prog, rep, c):
 
 
 def _in_check(f, node):
+    """the name is read inside an argument check: a check_* call, or an `if ...: raise` guard"""
     for n in walk_no_nested(f.node):
         if isinstance(n, ast.Call) and isinstance(n.func, ast.Name) and n.func.id.startswith("check_") and node in list(ast.walk(n)):
+            return True
+        if is_guard(n) and node in list(ast.walk(n)):
             return True
     return False
 
